@@ -12,7 +12,7 @@ FUNCTIONS = [
     "batchie.policies.k_per_sample.KPerSamplePlatePolicy.filter_eligible_plates",
 ]
 BOUNDS = {
-    "quick": "screens with P=3 and P=4 plates (5-6 rows, duplicate conditions shared between candidate and batch plates), every per-plate observed pattern, every batch (subset of plate ids), every n_chunks in 1..P+1, symbolic real scores (ties reachable) plus a -inf score, every order of the chunk files, with and without the k-per-sample policy (k in 1..2); one screen of 300 plates (winner and batch among ids 255, 256, 298, 299); a 4-plate structure in which every plate holds a condition of its own, batch ids in either order",
+    "quick": "screens with P=3 and P=4 plates (5-6 rows, duplicate conditions shared between candidate and batch plates), every per-plate observed pattern, every batch (subset of plate ids), every n_chunks in 1..P+1, symbolic real scores (ties reachable) plus a -inf score, every order of the chunk files, with and without the k-per-sample policy (k in 1..2); one screen of 300 plates (winner and batch among ids 255, 256, 298, 299); a 4-plate structure in which every plate holds a condition of its own, batch ids in either order; one generator object serves all chunk calls of a round (its state differs from call to call)",
     "thorough": "P up to 6 (9 rows) for coverage, up to 5 for selection, n_chunks up to P+2, policy k up to 3 on 4-6 single-sample plates, and 24 generated screen structures of up to 5 plates",
 }
 ASSUMPTIONS = [
